@@ -251,8 +251,8 @@ class Ctx:
         lst = self.by_f.setdefault(fname, [])
         tol = getattr(self, "uf_tol", None)
         if tol is not None and name is None:
-            # harness switch (C28): arguments that are the same polynomial up to a relative perturbation `tol` of every
-            # coefficient (the same quantity computed by two implementations with differently rounded float constants)
+            # harness switch (C28): arguments that are the same polynomial up to a perturbation of every coefficient by `tol`
+            # times the largest coefficient (the same quantity computed by two implementations with differently rounded float constants)
             # share one application
             from .harness import poly_of
             from fractions import Fraction
@@ -260,8 +260,8 @@ class Ctx:
                 pa = poly_of(arg)
                 for (a2, v2) in lst:
                     pb = poly_of(a2)
-                    if all(abs(pa.get(m, Fraction(0)) - pb.get(m, Fraction(0))) <= Fraction(tol) * max(abs(pa.get(m, Fraction(0))), abs(pb.get(m, Fraction(0))))
-                           for m in set(pa) | set(pb)):
+                    scale = max([abs(c) for c in pa.values()] + [abs(c) for c in pb.values()] + [Fraction(0)])
+                    if all(abs(pa.get(m, Fraction(0)) - pb.get(m, Fraction(0))) <= Fraction(tol) * scale for m in set(pa) | set(pb)):
                         self.apps[key] = (arg, v2)
                         return v2
             except HarnessError:
@@ -998,7 +998,25 @@ class SR(_Base, numbers.Real):
         key = ("sqrt", canon(e).sexpr())
         if key in c.data:
             return SR(c.data[key])
+        tol = getattr(c, "uf_tol", None)
+        if tol is not None:
+            # harness switch (C28): radicands that agree up to `tol` times their largest coefficient share one root
+            from .harness import poly_of
+            from fractions import Fraction
+            one = z3.RealVal(1)
+            try:
+                for (n2, d2, s2) in c.data.get("sqrt_list", []):
+                    pa = poly_of(self.n * (d2 if d2 is not None else one))
+                    pb = poly_of(n2 * (self.d if self.d is not None else one))
+                    scale = max([abs(v) for v in pa.values()] + [abs(v) for v in pb.values()] + [Fraction(0)])
+                    if all(abs(pa.get(m, Fraction(0)) - pb.get(m, Fraction(0))) <= Fraction(tol) * scale for m in set(pa) | set(pb)):
+                        c.data[key] = s2
+                        return SR(s2)
+            except HarnessError:
+                pass
         s = c.fresh("sqrt")
+        if tol is not None:
+            c.data.setdefault("sqrt_list", []).append((self.n, self.d, s))
         if self.d is None:
             c.need(self.n >= 0)
             c.pc.append(z3.And(s >= 0, s * s == self.n))
